@@ -131,7 +131,7 @@ func Run(c *core.Ctx, replay string) (*core.Result, error) {
 			rounds = 80
 		}
 		for r := 0; r < rounds; r++ {
-			models = append(models, sqlprog.Compose(u, rng, 2+rng.Intn(4), len(models)+1)...)
+			models = append(models, sqlprog.ComposeAnyID(u, rng, 2+rng.Intn(4), len(models)+1)...)
 		}
 	}
 	var out workOut
